@@ -1106,10 +1106,18 @@ def _extreme(xs, want_max):
         if isinstance(x, (int, bool)) and isinstance(best, (int, bool)):
             better = x > best if want_max else x < best
         else:
+            _no_tie(x, best)
             better = bool(_to_real(x) > _to_real(best)) if want_max else bool(_to_real(x) < _to_real(best))
         if better:
             best, bi = x, i
     return best, bi
+
+
+def _no_tie(x, y):
+    """precondition 'no exact ties' (only when the harness switched it on): cut paths where x == y"""
+    import torch
+    if torch.KERNELS.get("no_ties"):
+        symx.space().assume_feasible((_to_real(x) != _to_real(y)).z())
 
 
 def _bshape(a, b):
